@@ -209,6 +209,12 @@ class _Linalg:
         x = x if isinstance(x, _np.ndarray) else _np.asarray(_to_obj_nd(x) if has_sym(x) else x)
         if x.dtype != object:
             return _np.linalg.norm(x, ord=ord, axis=axis)
+        if x.ndim >= 1 and x.shape[axis if axis is not None else 0] == 1 and (axis is not None or x.ndim == 1):
+            # |v| for one-component vectors (exactly sqrt(v*v); keeps 1-d problems linear)
+            one = _np.take(x, 0, axis=axis if axis is not None else 0)
+            if isinstance(one, _np.ndarray):
+                return _map(one, lambda v: abs(lift(v)))
+            return abs(lift(one))
         sq = (x * x).sum(axis=axis)
         if isinstance(sq, _np.ndarray):
             return _map(sq, lambda v: lift(v).sqrt())
